@@ -91,7 +91,7 @@ def gen_pairs(rng, n):
 def gen_cases(tier, seed):
     rng = random.Random(seed)
     thorough = tier == "thorough"
-    n = 5000 if thorough else 72
+    n = 2000 if thorough else 72
     pairs = gen_pairs(rng, n)
     # a few fixed, hand-picked relations are always included
     fixed = [("looks-like-prefix", ["app", f"{_prefix('app')}__broker_x"]), ("looks-like-prefix", ["app", f"{_prefix('app')}__state_backend"]),
